@@ -298,7 +298,10 @@ StepReceive(ln) ==
              \o CntChecks(ln, e, res, FALSE))
   ELSE
     LET L == IF cr.ru >= 1 THEN ln.k[5] ELSE 0
-        res == UxReceive(eps[e], ln.cap, cr.rc, cr.rterm, L, TR)
+        \* the counters are owed the length of the datagram the peer's send accepted, not what recv(2) chose to report
+        \* (without MSG_TRUNC a truncating receive reports the buffer size): C17
+        Lm == IF cr.ru >= 1 /\ NextHdr(e) > 0 THEN NextHdr(e) ELSE L
+        res == UxReceive(eps[e], ln.cap, cr.rc, cr.rterm, Lm, TR)
         nn == IF res.ret > 0 THEN [nrcv EXCEPT ![e] = @ + 1] ELSE nrcv
         tag == IF res.ret = -1 /\ ConnErr(res.err) THEN "C06.errno"
                ELSE IF res.ret = 0 THEN "C06.drain" ELSE "C01.count"
